@@ -140,7 +140,7 @@ def tlc(module, cfg, env=None, workers=1, timeout=600, simulate=None, depth=None
     cmd = ["java", "-XX:+UseParallelGC", "-Xmx" + xmx, "-Xss64m"]
     if deque:
         cmd.append("-Dtlc2.tool.queue.IStateQueue=StateDeque")
-    cmd += ["-cp", TLA_CP, "tlc2.TLC", "-workers", str(workers), "-metadir", meta, "-config", cfg]
+    cmd += ["-cp", TLA_CP, "tlc2.TLC", "-noGenerateSpecTE", "-workers", str(workers), "-metadir", meta, "-config", cfg]
     if simulate:
         cmd += ["-simulate", "num=%d" % simulate]
         if depth:
